@@ -64,6 +64,8 @@ Check(e) ==
                 THEN Need(SetOf(e.value) = PureAnswer(e.query), "C14", <<"answer differs from the graph's", e.query.q>>) ELSE <<>>)
       [] e.op = "ns.qpanic" -> <<<<"C14", <<"query panicked", e.value>>>>>>
       [] e.op = "ns.round" -> Need(e.outcome = "ok", "C14", <<"round did not finish within 20 s (deadlock)", e.threads, e.finished>>)
+      \* a model-checked interleaving (MC_NsReplay) stepped through the real namespace, one cache touch at a time
+      [] e.op = "ns.replay" -> Need(e.outcome = "ok", "C14", <<"replay of a model-checked interleaving", e.outcome, e.done, e.steps, e.detail>>)
       [] OTHER -> <<<<"SPEC", <<"unknown op", e.op>>>>>>
 
 HeldAfter(e) ==
